@@ -137,7 +137,8 @@ _PRE = ["0 <= o0 <= 2 or o0 == 5", "o0 != 5 or (p0 == 0 and c0 == 0)", "0 <= p0 
 @harness("C04", args=_ARGS, pre=_PRE,
          tiers={"quick": {"timeout": 170, "pre": ["o0 == 1 or o0 == 5", "c2 == 0 or o2 == 5", "w == 2", "arr == False", "p2 <= 1"],
                           "parts": [(f"p{p}_c{c}", f"p0 == {p} and c0 == {c}") for p in (0, 1) for c in range(8) if not (p >= 1 and c >= NB)]},
-                "thorough": {"timeout": 1500, "pre": ["c2 <= 1", "arr == False or (c0 <= 3 and c1 <= 3 and c2 <= 1)"], "parts": [(f"p{p}_c{c}_o{o}", f"p0 == {p} and c0 == {c} and o1 == {o}") for p in (0, 1, 2) for c in range(8) for o in range(6) if not (p >= 1 and c >= NB)]}},
+                "thorough": {"timeout": 600, "pre": ["c2 <= 1", "arr == False or (c0 <= 3 and c1 <= 3 and c2 <= 1)"], "parts": [(f"p{p}_c{c}_o{o}_q{q}", f"p0 == {p} and c0 == {c} and o1 == {o} and p1 == {q}") for p in (0, 1, 2) for c in range(8) for o in range(6) for q in (0, 1, 2)
+                                       if not (p >= 1 and c >= NB) and not (o == 5 and q != 0) and not (o in (3, 4) and q != p)]}},
          sample=(1, 0, 5, 1, 0, 1, 2, 0, 0, 2, False),
          bounds="histories of 3 operations (+ completion) on the bus port and the two bundle ports (one bundle type: one object may be tied to both) of an Instance (and an InstanceArray with signal/slice/bundle connections); op in {call, setattr, connect, replace, disconnect, a third instance taking a reference to the edited port}; bus-port connectables: 2 signals, 2 bus halves, concatenation, port reference, unnamed / named no-connect; bundle-port connectables: internal bundle, bundle port, 2 anonymous bundles, port reference, reference into a nested bundle; w <= 2 (quick tier: w = 2, Instance only, first operation by assignment, third operation's connectable fixed, the second bundle port only in the second operation; thorough: all first operations, arrays, two third connectables)",
          generalises="operation / port / connectable selectors (exhaustive path enumeration); width", outside="histories longer than 3; more than two ports; Pair histories")
